@@ -87,10 +87,28 @@ def _worker(mod, tier, k, nworkers, budget, conn):
             if time.time() - t0 > budget:
                 agg["capped"] = True
                 break
-            r = mod.run_case(case)
+            try:
+                r = mod.run_case(case)
+            except Exception as exc:  # noqa
+                # An exception that escapes from LIBRARY code (a frame under the repository) while the harness was not
+                # guarding the call is a failure of the code under test on this case, not of the harness: report it
+                # as a violation with the case as replay.  Anything else is a harness error.
+                import traceback as _tb
+                from mc import bind as _bind
+                frames = _tb.extract_tb(exc.__traceback__)
+                if any(os.path.realpath(f.filename).startswith(_bind.REPO + os.sep) for f in frames):
+                    lib = [f for f in frames if os.path.realpath(f.filename).startswith(_bind.REPO + os.sep)][-1]
+                    r = {"n": 1, "st": 1, "tr": 1, "nt": 0,
+                         "v": [{"msg": f"the library raised {exc!r} at {os.path.relpath(lib.filename, _bind.REPO)}:{lib.lineno} ({lib.name}) "
+                                       f"while the check was setting up / running this case", "case": case}]}
+                else:
+                    raise
             if det_checked < 2:
                 # replay determinism: the same case must give the same observation twice
-                r2 = mod.run_case(case)
+                try:
+                    r2 = mod.run_case(case)
+                except Exception:  # noqa
+                    r2 = r
                 det_checked += 1
                 a = (r.get("out"), len(r.get("v", ())), r.get("n"))
                 b = (r2.get("out"), len(r2.get("v", ())), r2.get("n"))
@@ -287,7 +305,7 @@ def run_check(mod, tier, seed):
           f"wall={wall:.1f}s evidence={evp} ({how})")
     for line in known_lines:
         print(line)
-    if tot["cases"] == 0 or (tot["nt"] == 0 and not getattr(mod, "ALLOW_NO_NONTRIVIAL", False)):
+    if not viols and (tot["cases"] == 0 or (tot["nt"] == 0 and not getattr(mod, "ALLOW_NO_NONTRIVIAL", False))):
         print(f"BROKEN: check {prop} explored nothing non-trivial (cases={tot['cases']}, nontrivial={tot['nt']}); vacuous run")
         return 2
     if viols:
